@@ -120,9 +120,9 @@ Definition allcc_sym_step (dm : list (list (option nat))) (radial : list bool)
   mkSt (lF x) (tab n (fun v => Nat.min (pv v) (nth v (uF x) 0))) (lB x) (uB x)
        (dL x) (dv x) (fst r) (snd r) (iters x + 3).
 
-(** [OAll] is the symmetric SCC step; the directed branch (propagation through the
-    component DAG) is not modelled, and [OAll] is not a legal operation of the directed
-    variant *)
+(** [OAll] is the symmetric SCC step here; the directed branch (propagation through the
+    component DAG) is the operation [OAll] of the machine [step_dir] of Algo/EssScc.v, which
+    delegates the visits to [step false] *)
 Inductive op :=
 | OFwd (s : nat) (order : list nat)
 | OBwd (s : nat) (order : list nat)
